@@ -95,6 +95,12 @@ Definition dec_hvccnalu (m : mode) (e : N) : prog hvccnalu :=
 Definition dec_hvccarray (m : mode) (e : N) : prog hvccarray :=
   params <- rd_u8 ;;
   num_nalus <- rd_u16 ;;
+  (* fix: every nal unit takes at least the two bytes of its length field:
+     [if u64::from(num_nalus) * 2 > end.saturating_sub(reader.stream_position()?)]
+     ([num_nalus] is a u16, the product cannot overflow; [-] on [N] saturates) *)
+  pos <- get_pos ;;
+  if e - pos <? num_nalus * 2 then Throw EData
+  else
   alloc (num_nalus * 32) ;;;
   nalus <- rd_n (N.to_nat num_nalus) (dec_hvccnalu m e) ;;
   Ret (mkHvcCArray (0 <? N.land params 128) (N.land params 63) nalus).
